@@ -75,7 +75,7 @@ fn main() {
             // A panic INSIDE a generator (not in the code under test, whose panics are caught per case and are outcomes)
             // must not kill the run for one unlucky seed: keep what was produced, continue with the advanced PRNG state.
             // More than 25 such panics means something systematic: the process then fails as before.
-            let known = ["fx", "wrapper", "bank", "curve", "integr", "tokenfee", "bankstate", "signer", "admin", "account", "fees", "tx", "bkr", "xfer", "ixf", "liqix", "cfgix", "liq", "oracle", "health", "panic"];
+            let known = ["fx", "wrapper", "bank", "curve", "integr", "tokenfee", "bankstate", "signer", "admin", "account", "fees", "tx", "bkr", "xfer", "ixf", "liqix", "cfgix", "liteix", "liq", "oracle", "health", "panic"];
             if !known.contains(&fam) {
                 eprintln!("unknown family {}", fam);
                 std::process::exit(2);
@@ -102,6 +102,7 @@ fn main() {
                     "ixf" => fam_ixf::gen(&mut rng, want, &mut part),
                     "liqix" => mon_c05::gen(&mut rng, want, &mut part),
                     "cfgix" => mon_c13::gen(&mut rng, want, &mut part),
+                    "liteix" => mon_c12::gen(&mut rng, want, &mut part),
                 "liq" => fam_liq::gen(&mut rng, want, &mut part),
                 "oracle" => fam_oracle::gen(&mut rng, want, &mut part),
                 "health" => fam_health::gen(&mut rng, want, &mut part),
